@@ -81,19 +81,28 @@ type typeCombo struct {
 	// REAL parent frame: a frame built from columns of unequal capacities has the
 	// smallest one, whichever column it belongs to.
 	capx []int
+	// short > 0: the constructor (frame.Values) is given columns whose LENGTH is short
+	// rows less than their capacity (n rows): a frame built from slices with spare
+	// capacity. The parent view used by the check is root.Slice(0, n) — legal, since
+	// Slice/Ensure may extend a frame up to its capacity — and every row of it must
+	// behave like a row of an independent copy.
+	short int
 }
 
 var combos = []typeCombo{
-	{"int", []colKind{kInt}, 1, nil},
-	{"string", []colKind{kString}, 1, nil},
-	{"bytes", []colKind{kBytes}, 1, nil},
-	{"int+string/1", []colKind{kInt, kString}, 1, nil},
-	{"int+string/2", []colKind{kInt, kString}, 2, nil},
-	{"int+pstruct", []colKind{kInt, kPStruct}, 1, nil},
-	{"cc", []colKind{kCC}, 1, nil},
-	{"wide+int8/2", []colKind{kWide, kInt8}, 2, nil},
-	{"int+string/1/cap+3,+0", []colKind{kInt, kString}, 1, []int{3, 0}},
-	{"wide+int8/2/cap+0,+2", []colKind{kWide, kInt8}, 2, []int{0, 2}},
+	{"int", []colKind{kInt}, 1, nil, 0},
+	{"string", []colKind{kString}, 1, nil, 0},
+	{"bytes", []colKind{kBytes}, 1, nil, 0},
+	{"int+string/1", []colKind{kInt, kString}, 1, nil, 0},
+	{"int+string/2", []colKind{kInt, kString}, 2, nil, 0},
+	{"int+pstruct", []colKind{kInt, kPStruct}, 1, nil, 0},
+	{"cc", []colKind{kCC}, 1, nil, 0},
+	{"wide+int8/2", []colKind{kWide, kInt8}, 2, nil, 0},
+	{"int+string/1/cap+3,+0", []colKind{kInt, kString}, 1, []int{3, 0}, 0},
+	{"wide+int8/2/cap+0,+2", []colKind{kWide, kInt8}, 2, []int{0, 2}, 0},
+	{"int/len-2", []colKind{kInt}, 1, nil, 2},
+	{"int+string/1/len-1", []colKind{kInt, kString}, 1, nil, 1},
+	{"wide+int8/2/len-3,cap+0,+2", []colKind{kWide, kInt8}, 2, []int{0, 2}, 3},
 }
 
 var intBox [256]int
@@ -180,7 +189,18 @@ func newState(tc typeCombo, n, off, ln int) *state {
 		}
 	}
 	modelCols := newCols(tc, n, n, 1)
+	if tc.short > 0 {
+		for c := range realCols {
+			realCols[c] = realCols[c].Slice(0, n-tc.short) // same storage, spare capacity holds rows n-short..n-1
+		}
+	}
 	root := frame.Values(realCols).Prefixed(tc.prefix)
+	if tc.short > 0 {
+		if root.Len() != n-tc.short || root.Cap() != n {
+			failf("frame.Values of columns with len %d cap>=%d: Len()=%d Cap()=%d", n-tc.short, n, root.Len(), root.Cap())
+		}
+		root = root.Slice(0, n)
+	}
 	st := &storage{real: root, model: modelCols, n: n}
 	return &state{tc: tc, st: st, f: root.Slice(off, off+ln), off: off, len: ln, cap: n - off, prefix: tc.prefix, all: []*storage{st}}
 }
